@@ -274,6 +274,35 @@ def run(prog, check):
     if not excl_loops:
         check.ob('C06.R2', '%s::exclusion-scan-complete' % cash.key, False, cash.where, 'the income exclusions are never consulted',
                  'an excluded flow')
+    # every registration of an exclusion is recorded: the registering method appends (sector, flow name) on every
+    # normal path (an exclusion that is dropped lets the flow into INC)
+    n_reg = 0
+    for rf in prog.all_functions():
+        apps_ = [c for c in ast.walk(rf.node) if isinstance(c, ast.Call) and call_name(c) == 'append' and
+                 isinstance(c.func.value, ast.Attribute) and c.func.value.attr == 'IncomeExclusions']
+        if not apps_:
+            continue
+        n_reg += 1
+        check.saw(rf)
+        rfl = flatten(prog, rf)
+        gr_ = cfgmod.build(rfl)
+        app_nodes = [nd for nd in gr_.stmt_nodes() if nd.kind == 'stmt' and any(
+            isinstance(c, ast.Call) and call_name(c) == 'append' and isinstance(c.func.value, ast.Attribute) and
+            c.func.value.attr == 'IncomeExclusions' for c in ast.walk(nd.ast))]
+        always = bool(app_nodes) and gr_.must_pass(gr_.entry, gr_.exit, app_nodes)
+        rp = rfl.params()[1:]
+        pair_ok = True
+        for nd in app_nodes:
+            for c in ast.walk(nd.ast):
+                if isinstance(c, ast.Call) and call_name(c) == 'append' and c.args:
+                    a0 = c.args[0]
+                    pair_ok = pair_ok and isinstance(a0, ast.Tuple) and len(a0.elts) == 2 and len(rp) >= 2 and \
+                        [unparse(x) for x in a0.elts] == rp[:2]
+        check.ob('C06.R2', '%s::exclusion-always-recorded' % rf.key, always and pair_ok, rf.where,
+                 'every call records (sector, flow name) in the exclusion list' if (always and pair_ok) else
+                 'a registered exclusion can be dropped (or is recorded under other values): the flow then counts as income',
+                 'a sector with two excluded flows')
+    check.ob('C06.R2', 'exclusion-registration-present', n_reg >= 1, cash.where, '%d registering method(s)' % n_reg, '')
     # ---- R3 ----------------------------------------------------------------------------------------
     eqn_p = params[2] if len(params) > 2 else 'eqn'
     overw = [n for n in g.stmt_nodes() if n.kind == 'stmt' and any(isinstance(c, ast.Call) and call_name(c) == 'SetEquationRightHandSide'
@@ -409,6 +438,13 @@ def run(prog, check):
         c = [c for c in ast.walk(n.ast) if isinstance(c, ast.Call) and call_name(c) == 'append'][0]
         ok = isinstance(c.args[0], ast.Name) and c.args[0].id == new_p
         check.ob('C06.R4', '%s::append-the-new-term' % at.key, ok, '%s:%d' % (at.module.rel, n.line), 'the new term is appended', '')
+    # the text under which a flow is kept in F / INC is the text that was passed in (Term keeps its text verbatim)
+    from ._common import term_text_verbatim
+    tinit, tstores = term_text_verbatim(prog)
+    check.saw(tinit)
+    for n_, ok_, why_ in tstores:
+        check.ob('C06.R4', '%s::term-text-verbatim(%s)' % (tinit.key, unparse(n_.value)), ok_, '%s:%d' % (tinit.module.rel, n_.lineno), why_,
+                 "a flow 'W/P': F and INC must hold W/P, not P/W")
     # ---- W -----------------------------------------------------------------------------------------
     who_may_write(prog, check, 'C06.W', cash_raw)
     check.floor('C06.R1', 2)
